@@ -6,6 +6,7 @@ package main
 // merging the return values of all paths with ite.
 
 import (
+	"os"
 	"fmt"
 	"go/types"
 	"sort"
@@ -346,6 +347,9 @@ func (w *World) dispatchDef(method string) *PureDef {
 		if d == nil {
 			pd.state = 3
 			pd.why = "method " + funcKey(fn) + " is not pure: " + pureByFn[fn].why
+			if os.Getenv("GOVC_DEBUG") != "" {
+				fmt.Fprintln(os.Stderr, "dispatch", method, "fails:", pd.why)
+			}
 			return nil
 		}
 		alts = append(alts, alt{ctor: w.dynCtor[typeKey(t)], def: d})
